@@ -64,7 +64,7 @@ var secp256k1OrderBytes = []byte{0xff, 0xff, 0xff, 0xff, 0xff, 0xff, 0xff, 0xff,
 	0xba, 0xae, 0xdc, 0xe6, 0xaf, 0x48, 0xa0, 0x3b, 0xbf, 0xd2, 0x5e, 0x8c, 0xd0, 0x36, 0x41, 0x41}
 
 var dkgDeviations = []string{"r1_bad_a0sig", "r1_wrong_len_commits", "r1_other_member_id", "r2_corrupt_share", "r2_wrong_count", "r2_share_for_other",
-	"r3_false_complaint", "r3_bad_keysym", "r3_bad_confirm_sig", "dup_r1", "dup_r2", "r3_complain_self", "dup_r3", "r3_forged_complainant", "r3_false_complaint_noncanonical_keysym", "r2_share_out_of_range"}
+	"r3_false_complaint", "r3_bad_keysym", "r3_bad_confirm_sig", "dup_r1", "dup_r2", "r3_complain_self", "dup_r3", "r3_forged_complainant", "r3_false_complaint_noncanonical_keysym", "r2_share_out_of_range", "r2_short_share"}
 
 func (a *DKGActor) state(e *Env, gid uint64, m *TSSMember, mid uint64, size uint64) *dkgState {
 	if a.States == nil {
@@ -300,6 +300,13 @@ func (a *DKGActor) round2(e *Env, m *TSSMember, st *dkgState, g tsstypes.Group) 
 					}
 				}
 			}
+		}
+	case "r2_short_share":
+		// one ciphertext of the list, at any position, is a byte short: the whole message is malformed
+		if len(enc) > 0 {
+			i := e.Ch.Intn("dkg.r2.short.slot", len(enc))
+			enc[i] = append(tss.EncSecretShare{}, enc[i][:len(enc[i])-1]...)
+			honest, kind = false, st.Deviation
 		}
 	case "r2_wrong_count":
 		if len(enc) > 0 {
